@@ -165,9 +165,8 @@ def c08_event_blackboard(ctx):
                    "EventLimits.tla [inside / beyond clauses]")
     bp.model_check(ctx, "MC_Blackboard", "MC_Blackboard_limits" if quick else "MC_Blackboard_deep", BB_LIMIT_ACTIONS,
                    "Blackboard.tla [limit layer]")
-    evf = sorted(EV_FAULTS)
-    bp.must_fail(ctx, "MC_EventLimits", "MF_EventLimits_", EV_FAULTS, [evf[seed % len(evf)]] if quick else evf)
-    if not quick:
+    if not quick:       # vacuity guard of the invariants: planted defects must be refuted
+        bp.must_fail(ctx, "MC_EventLimits", "MF_EventLimits_", EV_FAULTS, sorted(EV_FAULTS))
         bp.must_fail(ctx, "MC_Blackboard", "MF_Blackboard_", bp.BB_FAULTS, ["reader_gt", "wrong_variant", "leftover"])
     # 2. programs
     variants = ["ipc", "local"]
